@@ -1,6 +1,6 @@
 (* The Q instance of the model, as the functions the runner calls. *)
 From Coq Require Import List ZArith QArith Bool.
-From SplipyModel Require Import Model.Num Model.BasisDef Model.BasisEval Model.Knots Model.Tensor Model.Obj Model.Deriv Model.KnotInsert Model.Reparam Model.Affine Model.Tol Model.StateCtx Model.Solve Model.Order Model.Split Model.Periodic Model.WF Model.Ops Model.Identical Model.Factory Gen.CircleNets.
+From SplipyModel Require Import Model.Num Model.BasisDef Model.BasisEval Model.Knots Model.Tensor Model.Obj Model.Deriv Model.KnotInsert Model.Reparam Model.Affine Model.Tol Model.StateCtx Model.Solve Model.Order Model.Split Model.Periodic Model.WF Model.Ops Model.Identical Model.Factory Model.Interp Gen.CircleNets.
 Import ListNotations.
 
 Definition q_basis_evaluate := @basis_evaluate Q NumQ.
@@ -54,4 +54,8 @@ Definition q_revolve_cps := @revolve_cps Q NumQ.
 Definition q_extrude_cps := @extrude_cps Q NumQ.
 Definition q_circle_net_p2C0 := @circle_net_p2C0 Q NumQ.
 Definition q_circle_net_p4C1 := @circle_net_p4C1 Q NumQ.
+Definition q_curve_interpolate := @curve_interpolate Q NumQ.
+Definition q_curve_lsq := @curve_lsq Q NumQ.
+Definition q_cubic_curve := @cubic_curve Q NumQ.
+Definition q_surface_interpolate := @surface_interpolate Q NumQ.
 Definition q_res_witness (e : err) : res unit := Err e.
